@@ -196,9 +196,18 @@ class World:
     def viol(self, props, kind, detail, **data):
         data.setdefault("flags_used", sorted(self.flags_used))  # context every mechanism classifier may need
         v = {"props": list(props), "kind": kind, "detail": str(detail)[:600], "step": len(self.steps), "data": data}
+        own = getattr(self, "continue_past_foreign", None)
+        if own and not (set(props) & set(own)):
+            # a scenario whose own oracle does not rest on the model (e.g. before/after
+            # restart comparison) goes on after a witness that belongs to another property
+            self.foreign_violations.append(v)
+            self.stats["foreign_viol:" + kind] += 1
+            return
         self.violations.append(v)
         self.stats["viol:" + kind] += 1
         raise Stop()
+
+    foreign_violations = ()
 
     def note(self, text):
         self.steps.append(text)
